@@ -11,6 +11,7 @@ import traceback
 from concurrent.futures import ProcessPoolExecutor
 
 ROOT = os.path.dirname(os.path.dirname(os.path.abspath(__file__)))
+OUT = os.environ.get("VERIF_OUT", ROOT)     # where evidence/ and replays/ are written (redirected by tools/seed_matrix.py)
 MAX_REPORTED = 3
 
 
@@ -254,7 +255,7 @@ def load_expected(prop):
 
 # ----------------------------------------------------------------------------- replay files
 def write_replay(prop, name, payload):
-    d = os.path.join(ROOT, "replays", prop)
+    d = os.path.join(OUT, "replays", prop)
     os.makedirs(d, exist_ok=True)
     h = hashlib.sha1(json.dumps(payload, sort_keys=True, default=str).encode()).hexdigest()[:10]
     safe = "".join(ch if ch.isalnum() or ch in "._-" else "_" for ch in name)[:80]
@@ -461,8 +462,8 @@ def run_property(mod, prop, tier, seed, build, t0, skip_d=False, skip_b=False, o
             known_findings_hit=sorted(known_printed),
             whatshap_imported_from=build, repo=os.environ.get("VERIF_REPO", "/repo"),
         ))
-    os.makedirs(os.path.join(ROOT, "evidence"), exist_ok=True)
-    with open(os.path.join(ROOT, "evidence", prop + ".json"), "w") as f:
+    os.makedirs(os.path.join(OUT, "evidence"), exist_ok=True)
+    with open(os.path.join(OUT, "evidence", prop + ".json"), "w") as f:
         json.dump(ev, f, indent=1, default=str)
     print("SUMMARY property=%s tier=%s level=%s obligations=%d discharged=%d solver_s=%.1f bounded_evaluations=%d distinct_nontrivial=%d "
           "violations=%d known_findings=%d undecided=%d wall=%.1fs" % (prop, tier, level, n_ob, n_dis, solver_s, evals, dn, len(violations),
